@@ -14,7 +14,7 @@ from sim import gen, kernel, world
 
 ID = 'C11'
 LEVEL = 'exploration'
-COUNT = {'quick': 1600, 'thorough': 40000}
+COUNT = {'quick': 4000, 'thorough': 60000}
 BUDGET_S = {'quick': 60, 'thorough': 780}
 DETERMINISM = {'quick': 24, 'thorough': 200}
 CHUNK = 10
@@ -244,7 +244,7 @@ def execute(plan):
         probes['probe_version_switch'] += int(vswitch)
         probes['probe_identity_switch'] += int(iswitch)
         diff = []
-        if frames_a != frames_b:
+        if frames_a != frames_b or A.last['escape'] != B.last['escape']:
             diff.append('response')
         if da != db:
             diff.append('store')
